@@ -9,7 +9,7 @@ from .devices import open_device
 from .formats import file_formats
 from .metacommand_impl import get_as_int
 from . import operators
-from .types import Instruction, Label, Assignment, InstructionPointer, WordList, ParenthesizedExpression
+from .types import Instruction, Label, Assignment, InstructionPointer, WordList, ParenthesizedExpression, CodeBlock
 from . import reports
 
 
@@ -277,6 +277,13 @@ class Compiler:
                     elif isinstance(symbol, Assignment):
                         # Implicit .word
                         words = [insn.name] + insn.operands[:]
+                        if isinstance(words[-1], CodeBlock):
+                            reports.error(
+                                "meta-type-mismatch",
+                                (insn.name.ctx_start, insn.name.ctx_end, f"'{insn.name.name}' is used as an instruction name and is passed a code block"),
+                                (symbol.ctx_start, symbol.ctx_end, "...but is defined as a variable here.")
+                            )
+                            return None
                         if len(words) > 1:
                             if isinstance(words[1], ParenthesizedExpression) and words[1].opening_parenthesis == "(":
                                 # 'a (expr)' was misparsed as instruction 'a' with operand '(expr)'
